@@ -127,7 +127,7 @@ func partJSON(p *Part, owner int) []byte {
 func (g *gen) filePart(pInvalid int) *Part {
 	p := g.part(40, pInvalid, false)
 	p.P, p.Set, p.NestX, p.EmbA, p.EmbS, p.Iface, p.BadIface, p.Share = nil, nil, nil, nil, nil, nil, false, false
-	p.SM, p.MM, p.MA = nil, nil, nil
+	p.SM, p.MM, p.MA, p.Pairs = nil, nil, nil, nil
 	if p.NestS == nil && p.NestN == nil {
 		p.NestS = nil
 	}
@@ -213,6 +213,9 @@ func genFile(seed uint64, faulty bool) *Scenario {
 			// a rewrite through the path right behind a swap: lands around the
 			// moment the watcher moves its directory watch
 			rw := Op{K: "rewrite", Part: g.filePart(pInvalid), N: g.in(0, 3)}
+			if pInvalid > 0 && g.pct(25) {
+				rw.Str = "malformed"
+			}
 			w.Ops = append(w.Ops, rw)
 			continue
 		}
@@ -242,7 +245,11 @@ func genFile(seed uint64, faulty bool) *Scenario {
 		case 1, 2:
 			w.Ops = append(w.Ops, Op{K: "await-read"})
 		}
-		w.Ops = append(w.Ops, Op{K: "rewrite", Part: g.filePart(0), N: g.in(0, 1)})
+		last := Op{K: "rewrite", Part: g.filePart(0), N: g.in(0, 1)}
+		if pInvalid > 0 && g.pct(30) {
+			last.Str = "malformed" // the final content is broken: the error must be reported
+		}
+		w.Ops = append(w.Ops, last)
 	}
 	if fs.Layout == "plain" && g.pct(25) {
 		// end with: new content, then - right behind the watcher's read of it -
@@ -650,15 +657,25 @@ func (r *Run) oracleC17() {
 	}
 	// final content invalid: the view stays at the last good config and the error is reported
 	if state == "malformed" && r.keepUp() {
+		// "the error reported": since the source last held well-formed content.
+		// (An implementation may stay silent when it reads the very bytes it
+		// has already reported as broken; it may not once it has been back to
+		// good content in between.)
+		lastGood := 0
+		for _, rr := range r.reads {
+			if _, good := f.known[string(rr.Data)]; good && rr.Err == "" && rr.Step > lastGood {
+				lastGood = rr.Step
+			}
+		}
 		found := false
 		for _, cb := range r.cbs {
 			var de *file.DecoderErr
-			if cb.Kind == "err" && errors.As(cb.Err, &de) && cb.Enter >= f.lastChange {
+			if cb.Kind == "err" && errors.As(cb.Err, &de) && cb.Enter >= lastGood {
 				found = true
 			}
 		}
 		if !found && r.sim.LastFault < f.lastOpAt {
-			r.fail("C17.error-not-reported", "the file's final content is malformed (changes stopped at step %d) but no decoder error reached OnWatchedError after that", f.lastChange)
+			r.fail("C17.error-not-reported", "the file's final content is malformed (changes stopped at step %d) but no decoder error reached OnWatchedError since the source last read well-formed content (step %d); error callbacks: %s", f.lastChange, lastGood, r.errCallbacks())
 		}
 	}
 }
@@ -837,4 +854,17 @@ func (r *Run) bytesChangedBetween(from, to int) bool {
 		}
 	}
 	return false
+}
+
+func (r *Run) errCallbacks() string {
+	var l []string
+	for _, cb := range r.cbs {
+		if cb.Kind == "err" {
+			l = append(l, fmt.Sprintf("step %d: %v", cb.Enter, cb.Err))
+		}
+	}
+	if len(l) == 0 {
+		return "none"
+	}
+	return strings.Join(l, "; ")
 }
